@@ -12,12 +12,16 @@ TIMEOUT_S = 10.0
 KINDS = ['gen', 'lu', 'ru', 'bu']          # general / left unique / right unique / both unique
 INV32, INV64 = (1 << 31) - 1, 1 << 62
 
-RULE = ('exhaustive over order-types: all pairs of non-decreasing key sequences up to the tier bound over a small '
+RULE = ('exhaustive over order-types (small positive keys): all pairs of non-decreasing key sequences up to the tier bound over a small '
         'alphabet (the kernels only compare keys) x all chunk sizes 1..bound+2 x the 8 variants whose uniqueness '
         'assumption is true of the pair x invalid marker/rdtype/key-type configurations rotated over the pairs; plus '
         'seeded structured random longer cases (runs planted at chunk boundaries). Non-trivial = reaches at least '
         'one of: matched rows, duplicate run on a side, run ending at/straddling a chunk boundary, result buffer '
-        'filled, tail of unmatched left rows, clear-error case.')
+        'filled, tail of unmatched left rows, clear-error case. Key values: every order type of <= 3 rows per side over 3 '
+        'ranks x chunk sizes x variants is also run with the ranks seen through strictly monotone selections of each key '
+        'dtype\'s table of critical values (both ends of every integer dtype, beyond 2^53, signed zeros, infinities, '
+        'subnormals, fixed strings differing in trailing blanks / NULs / high bytes); long random cases are placed at '
+        'the ends of integer dtypes by affine maps (c03_key_embedding justifies running the model on the ranks).')
 EXHAUSTIVE = {'quick': True, 'thorough': True}
 TRUSTED = ['numba code generation; numpy; MemoryField write_part/complete (modelled as list append)',
            'the run of a case under NUMBA_BOUNDSCHECK / interpreted mode is what decides out-of-bounds (C10 tie)']
@@ -44,22 +48,104 @@ def setup():
     })
 
 
-def _keyfield(keys, ktype):
-    np, fields = _np, _fields
-    if ktype == 'S':
-        f = fields.FixedStringMemField(None, 3)
-        f.data.write(np.asarray([b'k%02d' % k for k in keys], dtype='S3'))
+# ----------------------------------------------------------------------------- key values
+# The model runs on the ORDER TYPE of a case (small integer ranks); the implementation is given concrete key columns:
+# the ranks seen through a strictly monotone map into the key dtype (Props/C03.v: c03_key_embedding says the model
+# result is invariant under such a map). The tables list, in ascending order of the dtype's own comparison, the values
+# at which a comparison could be implemented wrongly: both ends of the dtype (a difference of neighbours overflows),
+# values beyond 2^53 (not representable in binary64), signed zeros and infinities, subnormals, fixed strings that differ
+# only in trailing blanks / NULs / an embedded NUL, bytes >= 0x80.
+def _int_table(kt):
+    w = int(kt.lstrip('uint'))
+    if kt.startswith('u'):
+        t = [0, 1, 2, (1 << (w - 1)) - 1, 1 << (w - 1), (1 << (w - 1)) + 1, (1 << w) - 2, (1 << w) - 1]
+        if w == 64:
+            t += [(1 << 53), (1 << 53) + 1, (1 << 63) - 1024, (1 << 63) + 1024]
     else:
-        f = fields.NumericMemField(None, ktype)
-        f.data.write(np.asarray(keys, dtype=ktype))
+        lo, hi, q = -(1 << (w - 1)), (1 << (w - 1)) - 1, 1 << (w - 2)
+        t = [lo, lo + 1, -q - 1, -q, -2, -1, 0, 1, 2, q, q + 1, hi - 1, hi]
+        if w == 64:
+            t += [-(1 << 53) - 1, -(1 << 53), (1 << 53), (1 << 53) + 1]
+    return sorted(set(t))
+
+
+_F64 = ['-inf', '-0x1.fffffffffffffp+1023', '-0x1.0000000000001p+53', '-0x1.0p+53', '-1.5', '-1.0', '-0x0.0000000000001p-1022',
+        'Z', '0x0.0000000000001p-1022', '1.0', '0x1.0000000000001p+0', '1.5', '0x1.0p+53', '0x1.0000000000001p+53',
+        '0x1.fffffffffffffp+1023', 'inf']
+_F32 = ['-inf', '-0x1.fffffep+127', '-0x1.000002p+24', '-0x1.0p+24', '-1.5', '-1.0', '-0x1.0p-149', 'Z', '0x1.0p-149', '1.0',
+        '0x1.000002p+0', '1.5', '0x1.0p+24', '0x1.000002p+24', '0x1.fffffep+127', 'inf']
+_S3 = [b'', b'\x01', b' ', b'  ', b'   ', b' a', b'A', b'a', b'a\x00b', b'a ', b'a  ', b'a a', b'aa', b'aa ', b'ab', b'b', b'b ',
+       b'\x7f', b'\x80', b'\xc3\xa9', b'\xff', b'\xff\xff\xff']
+assert all(a.ljust(3, b'\0') < b.ljust(3, b'\0') for a, b in zip(_S3, _S3[1:]))
+KEY_TYPES = ['int8', 'int16', 'int32', 'int64', 'uint8', 'uint16', 'uint32', 'uint64', 'float32', 'float64', 'S']
+KEY_TYPES_QUICK = ['int8', 'int64', 'uint64', 'float64', 'S']
+KEY_RD = {'int8': 'int32', 'int16': 'int64', 'int32': 'int32', 'int64': 'int64', 'uint8': 'int64', 'uint16': 'int32',
+          'uint32': 'int64', 'uint64': 'int64', 'float32': 'int32', 'float64': 'int64', 'S': 'int32'}
+
+
+def key_table(kt):
+    if kt == 'S': return _S3
+    if kt == 'float64': return _F64
+    if kt == 'float32': return _F32
+    return _int_table(kt)
+
+
+def key_maps(kt, n):
+    """the monotone selections of n table values used for a case with n distinct ranks"""
+    T = len(key_table(kt))
+    if n > T:
+        return []
+    out = [['win', o] for o in range(0, T - n + 1)]
+    if 2 <= n < T:
+        out.append(['ends'])
+    return out
+
+
+def _select(kt, km, n):
+    tab = key_table(kt)
+    if km[0] == 'win':
+        return tab[km[1]:km[1] + n]
+    h = (n + 1) // 2                 # 'ends': the low end followed directly by the high end of the dtype
+    return tab[:h] + tab[len(tab) - (n - h):]
+
+
+def _concrete(case, side):
+    """the key column of one side as the implementation gets it (list of python values / bytes)"""
+    kt, km, xs = case['kt'], case.get('km'), case[side]
+    if km is None:
+        return [b'k%02d' % k for k in xs] if kt == 'S' else list(xs)
+    if km[0] == 'aff':               # long cases: an affine map ending at / starting from an end of the integer dtype
+        return [km[1] + k for k in xs]
+    D = sorted(set(case['L']) | set(case['R']))
+    sel = _select(kt, km, len(D))
+    val = dict(zip(D, sel))
+    out, nz = [], 0
+    for k in xs:
+        v = val[k]
+        if v == 'Z':                 # equal by value, different by representation: 0.0 and -0.0 alternate
+            v = '0.0' if (nz + (side == 'R')) % 2 == 0 else '-0.0'
+            nz += 1
+        out.append(float.fromhex(v) if isinstance(v, str) else v)
+    return out
+
+
+def _keyfield(case, side):
+    np, fields = _np, _fields
+    kt, vals = case['kt'], _concrete(case, side)
+    if kt == 'S':
+        f = fields.FixedStringMemField(None, 3)
+        f.data.write(np.asarray(vals, dtype='S3'))
+    else:
+        f = fields.NumericMemField(None, kt)
+        f.data.write(np.asarray(vals, dtype=kt))
     return f
 
 
 def run(case):
     np, fields = _np, _fields
     kind, isl = case['kind'], case['left']
-    L = _keyfield(case['L'], case['kt'])
-    R = _keyfield(case['R'], case['kt'])
+    L = _keyfield(case, 'L')
+    R = _keyfield(case, 'R')
     rd = case['rd']
     lres = fields.NumericMemField(None, rd)
     rres = fields.NumericMemField(None, rd)
@@ -82,6 +168,12 @@ def warmup():
             for rd, kt, inv in (('int32', 'int32', -1), ('int64', 'int64', INV64), ('int32', 'S', INV32)):
                 try:
                     run({'kind': kind, 'left': isl, 'L': [1, 2, 4], 'R': [2, 3, 4], 'inv': inv, 'cs': 2, 'rd': rd, 'kt': kt})
+                except Exception:
+                    pass
+            for kt in KEY_TYPES_QUICK + ['int16']:
+                try:
+                    run({'kind': kind, 'left': isl, 'L': [1, 2, 4], 'R': [2, 3, 4], 'inv': -1, 'cs': 2, 'rd': KEY_RD[kt], 'kt': kt,
+                         'km': ['win', 0]})
                 except Exception:
                     pass
 
@@ -152,6 +244,15 @@ def features(case, model):
     if case['left'] and L and (not R or L[-1] > R[-1]): f.append('tail-unmatched-left')
     if len(L) > cs or len(R) > cs: f.append('multi-chunk')
     if not L or not R: f.append('empty-side')
+    if case.get('km'):
+        f.append('keys:%s/%s' % (case['kt'], case['km'][0]))
+        if case['km'][0] != 'aff':
+            vs = _concrete(case, 'L') + _concrete(case, 'R')
+            if case['kt'].startswith('float') and any(v == 0 for v in vs): f.append('keys:signed-zero')
+            if case['kt'] == 'S' and any(isinstance(v, bytes) and (v.endswith(b' ') or b'\x00' in v) for v in vs):
+                f.append('keys:blank-or-nul')
+            if case['kt'][0] in 'iu' and len(set(vs)) > 1 and max(vs) - min(vs) >= 1 << (int(case['kt'].lstrip('uint')) - 1):
+                f.append('keys:difference-overflows-dtype')
     return f
 
 
@@ -196,9 +297,30 @@ def gen(tier, rng):
                     rd, kt, inv = CONFIGS[cnt % len(CONFIGS)]
                     cnt += 1
                     yield {'kind': kind, 'left': isl, 'L': L, 'R': R, 'inv': inv, 'cs': cs, 'rd': rd, 'kt': kt}
+    # key VALUES (the blocks above and below exercise order types with small positive keys): order types of up to 3 rows per
+    # side over 3 ranks x every chunk size x every variant, seen through the monotone selections of every key dtype's table
+    # of critical values (key_table), rotating so that every (dtype, selection) meets every order type class
+    from harness import hot
+    ktypes = KEY_TYPES if (tier != 'quick' or hot.changed()) else KEY_TYPES_QUICK
+    stride = 3 if tier != 'quick' else (4 if hot.changed() else 9)
+    small = list(_nondecr(3, 3)) + ([x for x in _nondecr(4, 3) if len(x) == 4] if tier != 'quick' else [])
+    kc = 0
+    for L in small:
+        for R in small:
+            n = len(set(L) | set(R))
+            if n == 0:
+                continue
+            maps = [(kt, km) for kt in ktypes for km in key_maps(kt, n)]
+            for cs in range(1, 5 if tier == 'quick' else 7):
+                for kind, isl in _variants(L, R):
+                    for j in range(kc % stride, len(maps), stride):
+                        kt, km = maps[j]
+                        rd = KEY_RD[kt]                      # one result dtype per key dtype (bounds the JIT signatures)
+                        inv = [-1, INV64 if rd == 'int64' else INV32][(kc + j) % 2]
+                        yield {'kind': kind, 'left': isl, 'L': L, 'R': R, 'inv': inv, 'cs': cs, 'rd': rd, 'kt': kt, 'km': km}
+                    kc += 1
     # change-directed: a size / threshold literal that is new in the tree under test (harness/hot.py) is used as chunk size,
     # chunk-size divisor, run length and column length
-    from harness import hot
     for K in hot.hot_sizes():
         for _ in range(2500 if tier == 'quick' else 20000):
             cs = rng.choice([K - 1, K, K + 1, 2 * K, 3 * K, K * K if K <= 40 else 2 * K + 1, max(2, K // 2)])
@@ -243,7 +365,18 @@ def gen(tier, rng):
         rd, kt, inv = rng.choice(CONFIGS)
         if kt == 'S':
             kt = 'int32'          # fixed-string keys are rendered with two digits: keep the long cases numeric
-        yield {'kind': kind, 'left': rng.randint(0, 1), 'L': L, 'R': R, 'inv': inv, 'cs': cs, 'rd': rd, 'kt': kt}
+        c = {'kind': kind, 'left': rng.randint(0, 1), 'L': L, 'R': R, 'inv': inv, 'cs': cs, 'rd': rd, 'kt': kt}
+        if rng.random() < 0.5 and (L or R):
+            # the same order type placed at an end of an integer dtype (affine, hence strictly monotone, key map)
+            kt = rng.choice(['int32', 'int64', 'uint64', 'int16'])
+            lo, hi = min(L + R), max(L + R)
+            w = int(kt.lstrip('uint'))
+            dmin, dmax = (0, (1 << w) - 1) if kt.startswith('u') else (-(1 << (w - 1)), (1 << (w - 1)) - 1)
+            if hi - lo <= dmax - dmin:
+                rd2 = KEY_RD[kt]
+                c.update(kt=kt, rd=rd2, inv=rng.choice([-1, INV64 if rd2 == 'int64' else INV32]),
+                         km=['aff', rng.choice([dmin - lo, dmax - hi, (dmin + dmax) // 2 - (lo + hi) // 2])])
+        yield c
     # structured random longer cases with runs planted around chunk boundaries
     for _ in range(3000 if tier == 'quick' else 40000):
         cs = rng.randint(2, 9)
@@ -269,8 +402,8 @@ def shrink(case):
             c = dict(case); c[side] = xs[:i] + xs[i + 1:]; yield c
     if case['cs'] > 1:
         c = dict(case); c['cs'] = case['cs'] - 1; yield c
-    if case['kt'] != 'int32' or case['rd'] != 'int32' or case['inv'] != -1:
-        c = dict(case); c.update(kt='int32', rd='int32', inv=-1); yield c
+    if case['kt'] != 'int32' or case['rd'] != 'int32' or case['inv'] != -1 or case.get('km'):
+        c = dict(case); c.update(kt='int32', rd='int32', inv=-1); c.pop('km', None); yield c
 
 
 TECHNIQUE = 'Coq proof (faithful model of the 8 streamed drivers + 10 kernels = relational join) + exhaustive order-type correspondence against /repo in JIT, interpreted and bounds-checked modes'
